@@ -14,6 +14,7 @@ import S4V.Model.SortDrain
 import S4V.Drv.Journal
 import S4V.Drv.Tmp
 import S4V.Drv.Fixed
+import S4V.Drv.SyslCached
 
 open S4V.Model S4V.Model.Wire
 
@@ -213,6 +214,7 @@ def step (line : String) : String :=
   | "blk" :: rest => stepBlk rest
   | "coord" :: rest => stepCoord rest
   | "sysl" :: rest => stepSysl rest
+  | "syslc" :: rest => S4V.Drv.stepSyslC rest
   | "gate" :: rest => stepGate rest
   | "proc" :: rest => stepProc rest
   | "sort" :: rest => stepSort rest
